@@ -190,6 +190,28 @@ class _null:
         return False
 
 
+def h_compact_given_unit(eng, unit, base):
+    """to_compact(unit=...): the prefix is chosen for the given unit; value preserved; the
+    result is that unit with a prefix, its magnitude in [1, 1000) where a prefix exists"""
+    ureg = regs.default(eng)
+    x = eng.real("x")
+    eng.assume(x > 0)
+    q = ureg.Quantity(x, unit)
+    ctx = qto_math_shim() if eng.symbolic else _null()
+    with ctx:
+        r = q.to_compact(base)
+        r_default = q.to_compact()
+    _preserved(eng, q, r, x, "compact-unit")
+    names = list(r._units)
+    eng.prove(len(names) == 1 and names[0].endswith(base), "compact-unit:result-is-a-prefixed-form-of-the-given-unit")
+    m = r.magnitude
+    mb = q.to(base).magnitude
+    exists = And(mb >= Fraction(1, 10**30), mb < Fraction(10**33))
+    eng.prove(Implies(exists, And(m >= 1, m < 1000)), "compact-unit:range-[1,1000)")
+    # the unit chosen by default is the quantity's own unprefixed unit
+    eng.prove(Eq(r_default.to(base).magnitude, mb), "compact-default:value")
+
+
 def h_compact_unchanged(eng, unit):
     """zero and dimensionless inputs are returned unchanged"""
     ureg = regs.default(eng)
@@ -295,6 +317,8 @@ def cases(tier, seed):
             out.append(Case("H15.c", f"compact:{_sig(ul)}:{'+' if sign > 0 else '-'}", M, "h_compact", {"units": ul, "sign": sign}, opts={"max_paths": 3000, "query_timeout_ms": 30000}, weight=20.0, validate=0))
     for u in ("meter", "newton"):
         out.append(Case("H15.c", f"compact-unchanged:{u}", M, "h_compact_unchanged", {"unit": u}, validate=0))
+    for unit, base in (("kilometer", "meter"), ("meter", "meter"), ("millisecond", "second"), ("inch", "meter"), ("hour", "second")) + ((("pound", "gram"), ("mile", "inch")) if big else ()):
+        out.append(Case("H15.c", f"compact-given-unit:{unit}->{base}", M, "h_compact_given_unit", {"unit": unit, "base": base}, opts={"max_paths": 3000, "query_timeout_ms": 30000}, weight=20.0, validate=0))
     for u in ("kilometer", "millisecond", "meter", "megabyte") + (("microgram", "gigahertz", "newton") if big else ()):
         out.append(Case("H15.c", f"compact-uncertain:{u}", M, "h_compact_uncertain", {"unit": u}, opts={"max_paths": 3000, "query_timeout_ms": 30000}, weight=20.0, validate=0))
     prefs = [([["acre", 1]], ["meter"]), ([["force_pound", 1], ["meter", 1]], ["watt", "second"]), ([["mile", 1], ["hour", -1]], ["meter", "second"]), ([["gram", 1], ["inch", 2], ["minute", -2]], ["joule"]), ([["psi", 1]], ["newton", "meter"])]
